@@ -9,7 +9,7 @@
 
 use crate::blob::{self, Algo};
 use crate::damage::{observe, FileObs};
-use crate::exec::{declared_integrity, declared_size, sha256_hex, Ctx, PREEXISTING};
+use crate::exec::{declared_size, sha256_hex, Ctx, PREEXISTING};
 use crate::ops::*;
 use crate::reffmt;
 use serde_json::Value;
@@ -57,6 +57,9 @@ pub struct Model {
     /// keys that received a planted record with arbitrary integrity text: their lookups are
     /// not judged by the model
     pub unjudged_keys: std::collections::BTreeSet<String>,
+    /// `<cache>/tmp` points to another filesystem: a write may fail with an I/O error because
+    /// the temp file cannot be renamed into place (it may also succeed, if the implementation copes)
+    pub tmp_elsewhere: bool,
     /// pure mode: never look at the disk (used when candidate serial orders are replayed
     /// after the fact); a successful write is taken to publish its data
     pub pure: bool,
@@ -120,6 +123,7 @@ impl Model {
             list_unjudged: false,
             damaged_buckets: 0,
             unjudged_keys: Default::default(),
+            tmp_elsewhere: false,
             pure: false,
         }
     }
@@ -241,6 +245,10 @@ impl Model {
             }
         }
         match &step.op {
+            Op::TmpElsewhere => {
+                self.tmp_elsewhere = true;
+                Ok(())
+            }
             Op::PlantRecord { key, .. } => {
                 self.unjudged_keys.insert(ctx.key(*key).to_string());
                 self.index.entry(ctx.key(*key).to_string()).or_default().bucket_exists = true;
@@ -350,6 +358,7 @@ impl Model {
                 self.content.clear();
                 self.index_dir = false;
                 self.list_unjudged = false;
+                self.tmp_elsewhere = false;
                 if self.pure {
                     return Ok(());
                 }
@@ -513,10 +522,12 @@ impl Model {
         declare: Declare,
         algo: Algo,
         data: &[u8],
+        other: &[u8],
     ) -> (Option<String>, Option<usize>, bool, bool, bool) {
-        let di = declared_integrity(integ, algo, data).map(|s| blob::sri_canon(&s).unwrap());
+        let di = crate::exec::declared_integrity_ex(integ, algo, data, other).map(|s| blob::sri_canon(&s).unwrap());
         let ds = declared_size(declare, data.len());
-        let ok_int = matches!(integ, IntegDecl::None | IntegDecl::Correct | IntegDecl::MultiWithCorrect | IntegDecl::MultiTwoAlgos);
+        let ok_int = matches!(integ, IntegDecl::None | IntegDecl::Correct | IntegDecl::MultiWithCorrect | IntegDecl::MultiTwoAlgos)
+            || (integ == IntegDecl::DigestOfOtherBlob && other == data);
         let undecided_int = matches!(integ, IntegDecl::OtherAlgoCorrect);
         let ok_size = ds.map(|n| n == data.len()).unwrap_or(true);
         (di, ds, ok_int, undecided_int, ok_size)
@@ -527,7 +538,7 @@ impl Model {
         let data = ctx.blob(s.blob);
         let opts = s.entry == WEntry::Opts;
         let algo = if matches!(s.entry, WEntry::OneShot | WEntry::Create) { Algo::Sha256 } else { s.algo };
-        let di = if opts { declared_integrity(s.integ, algo, &data).map(|x| blob::sri_canon(&x).unwrap()) } else { None };
+        let di = if opts { crate::exec::declared_integrity_ex(s.integ, algo, &data, &crate::exec::other_blob(ctx, s.blob)).map(|x| blob::sri_canon(&x).unwrap()) } else { None };
         let ds = if opts { declared_size(s.declare, data.len()) } else { None };
         Entry {
             integrity: di.unwrap_or_else(|| blob::sri(algo, &data)),
@@ -555,7 +566,9 @@ impl Model {
         let (integ, declare) = if opts { (s.integ, s.declare) } else { (IntegDecl::None, Declare::None) };
         let d = blob::sri(algo, &data);
         let addr = (algo, blob::hexs(&blob::digest_raw(algo, &data)));
-        let (di, ds, ok_int, undecided_int, ok_size) = self.commit_checks(integ, declare, algo, &data);
+        let other = crate::exec::other_blob(ctx, s.blob);
+        // (a declared digest of another value is wrong unless both values are equal)
+        let (di, ds, ok_int, undecided_int, ok_size) = self.commit_checks(integ, declare, algo, &data, &other);
         let what = format!(
             "write(key={:?}, {} bytes, {}, {:?}, chunks={:?}, declare={:?}, integ={:?})",
             s.key.map(|k| ctx.key(k)),
@@ -583,6 +596,15 @@ impl Model {
             if let Out::Err(..) = out {
                 self.adopt_content(ctx, &addr);
                 self.index_dir = ctx.cache.join("index-v5").exists();
+                return Ok(());
+            }
+        }
+        if self.tmp_elsewhere {
+            if let Out::Err(ErrKind::Io { .. }, _) = out {
+                if !self.pure {
+                    self.adopt_content(ctx, &addr);
+                    self.index_dir = ctx.cache.join("index-v5").exists();
+                }
                 return Ok(());
             }
         }
@@ -654,7 +676,7 @@ impl Model {
         let (integ, declare) = if l.oneshot { (IntegDecl::None, Declare::Exact) } else { (l.integ, l.declare) };
         let d = blob::sri(algo, &data);
         let addr = (algo, blob::hexs(&blob::digest_raw(algo, &data)));
-        let (di, ds, ok_int, undecided_int, ok_size) = self.commit_checks(integ, declare, algo, &data);
+        let (di, ds, ok_int, undecided_int, ok_size) = self.commit_checks(integ, declare, algo, &data, &[]);
         let what = format!("link_to(key={:?}, {} bytes, {:?})", l.key.map(|k| ctx.key(k)), data.len(), l);
         // the harness (re)wrote the target file just before the call: addresses linked to an
         // earlier version of that file now read whatever it holds
